@@ -66,3 +66,22 @@ package standard
 //@ invariant [sound] forall k int :: 0 <= k && k < len(accounts) ==> (exists i int :: 0 <= i && i <= _n1 && eligible(s.fetcher, paths[i], accounts[k]) && akey(credentials.Client, s.fetcher, paths[i], accounts[k]) in checkedset)
 //@ invariant [complete-done] credentials.Client != "" ==> (forall i int, n string :: 0 <= i && i < _n1 && pathOK(s.fetcher, paths[i]) && hasAcc(s.fetcher, wn(s.fetcher, paths[i]), n) && nameMatch(paths[i], accNamed(s.fetcher, wn(s.fetcher, paths[i]), n)) && implements(accNamed(s.fetcher, wn(s.fetcher, paths[i]), n), "e2wtypes.AccountPublicKeyProvider") ==> (exists k int :: 0 <= k && k < len(accounts) && accounts[k] == accNamed(s.fetcher, wn(s.fetcher, paths[i]), n)) || akey(credentials.Client, s.fetcher, paths[i], accNamed(s.fetcher, wn(s.fetcher, paths[i]), n)) in deniedset)
 //@ invariant [complete-cur] credentials.Client != "" ==> (forall n string :: visited()[n] && nameMatch(path, accNamed(s.fetcher, wn(s.fetcher, path), n)) && implements(accNamed(s.fetcher, wn(s.fetcher, path), n), "e2wtypes.AccountPublicKeyProvider") ==> (exists k int :: 0 <= k && k < len(accounts) && accounts[k] == accNamed(s.fetcher, wn(s.fetcher, path), n)) || akey(credentials.Client, s.fetcher, path, accNamed(s.fetcher, wn(s.fetcher, path), n)) in deniedset)
+
+// ---- construction: the object handed out has every collaborator the methods rely on ----
+//@ func (Parameter).apply
+//@ requires p != nil
+//@ modifies p.logLevel, p.monitor, p.checker, p.fetcher, p.ruler
+
+//@ func parseAndCheckParameters
+// (the guard in the loop tests the slice, not the option: a nil option would panic; every caller passes non-nil options)
+//@ requires [options] forall i int :: 0 <= i && i < len(params) ==> params[i] != nil
+//@ ensures [err] result1 != nil ==> result0 == nil
+//@ ensures [ok] result1 == nil ==> result0 != nil && result0.monitor != nil && result0.checker != nil && result0.fetcher != nil && result0.ruler != nil
+//@ loop #1
+//@ invariant [range] 0 <= _n && _n <= len(params)
+
+//@ func New
+//@ requires [options] forall i int :: 0 <= i && i < len(params) ==> params[i] != nil
+//@ modifies log
+//@ ensures [err] result1 != nil ==> result0 == nil
+//@ ensures [ok] result1 == nil ==> wiredLister(result0)
